@@ -193,6 +193,53 @@ def m6(rep):
         raise AnalysisBroken("no FOAM type with a promoted C type found: the probe is not seeing foam_c.h")
 
 
+def m7(rep):
+    """Split mode writes <prefix>NNN.c files next to the main C file and its header (each of them does #include "<unit>.h" by
+    bare name).  The additional file names must be built from the *output* file name (directory and type of
+    emitFileName(finfo, FTYPENO_C)), never from the source file's: with `aldor -Csmax=N dir/x.as` the two directories differ."""
+    f = common.extract("emit.c", trees=["emitTheC"])
+    fn = f.func("emitTheC")
+    outs, srcs = set(), set()
+    for x in walk(fn["body"]):
+        if x["k"] == "BinaryOperator" and x["op"] == "=":
+            l, r = strip(x["c"][0]), strip(x["c"][1])
+            if l is not None and r is not None and l["k"] == "DeclRefExpr" and r["k"] == "CallExpr":
+                if r.get("callee") == "emitFileName":
+                    outs.add(l["n"])
+                elif r.get("callee") == "emitSrcFile":
+                    srcs.add(l["n"])
+    news = calls(fn["body"], "fnameNew")
+    if not outs or not news:
+        raise AnalysisBroken("emitTheC: output file name variable or fnameNew call not found")
+    n = 0
+    for c in news:
+        n += 1
+        for i, acc, what in ((1, "fnameDir", "directory"), (3, "fnameType", "type")):
+            a = strip(c["c"][i]) if len(c["c"]) > i else None
+            key = "split-file-%s-from-output@%d" % (what, n)
+            where = "emit.c:%d (emitTheC)" % c["l"]
+            if a is not None and a["k"] == "ArraySubscriptExpr" and a.get("mac") == acc:
+                base = [y for y in walk(a["c"][0]) if y["k"] == "DeclRefExpr"]
+                v = base[0] if len(base) == 1 else None
+            elif a is not None and a["k"] == "CallExpr" and a.get("callee") == acc:
+                v = strip(a["c"][1])
+            else:
+                raise AnalysisBroken("emitTheC: the %s argument of fnameNew is not %s(...)" % (what, acc))
+            if v is None or v["k"] != "DeclRefExpr":
+                raise AnalysisBroken("emitTheC: %s of something other than a variable" % acc)
+            if v["n"] in outs:
+                rep.ok("M7", key)
+            elif v["n"] in srcs:
+                rep.violation("M7", key, where,
+                              "an additional C file of a split unit takes its %s from '%s', the source file's name, not from the "
+                              "output file's: with the source given as dir/x.as the numbered files land in dir/ while x.c and x.h "
+                              "are written to the output directory, and each numbered file's #include \"x.h\" fails to compile"
+                              % (what, v["n"]))
+            else:
+                raise AnalysisBroken("emitTheC: '%s' is neither an output nor the source file name" % v["n"])
+    rep.floor("file names built in emitTheC", n, 1)
+
+
 def m5(rep):
     """Split mode (-Csmax): a name declared without `static` must be unit-qualified (built by gc0MultVarId), because several
     generated files are linked together."""
@@ -313,6 +360,7 @@ def run(tier, only=None):
     m4(rep)
     m5(rep)
     m6(rep)
+    m7(rep)
     mx = max(ch for ch, _, _ in rows if ch is not None)
     if mx >= bound:
         rep.violation("M3", "table-chars", "genc.c (ccSpecCharIdTable)", "character %d indexes tables of %d elements" % (mx, bound))
